@@ -320,19 +320,8 @@ def r6_sentinel(ctx):
         ctx.check(R, not bad, c, f, c, 'min(consumers) can be -1 (graph output) and is used as an index / slice start / map position')
   if uses < 4:
     raise index.AnalysisError(f'{R}: only {uses} sentinel uses analysed')
-  # producer: negative / None handled before the map lookup
+  # (producer None / -1 before the map lookup: decided by the id-translation table C01.R12)
   f = funcs[0]
-  g = cfgmod.build(f.node)
-  lookups = [n for n in g.nodes for x in n.walk() if isinstance(x, ast.Subscript) and 'instruction.producer' in ast.unparse(x.slice) and '_op_id_map' in ast.unparse(x.value)]
-  guards = [n for n in g.nodes if n.kind == 'if' and 'instruction.producer' in ast.unparse(n.ast.test) and '< 0' in ast.unparse(n.ast.test)]
-  ctx.instance(R)
-  ctx.check(R, len(guards) == 1 and all(n.id not in g.reachable([d for d, lab in g.succ[guards[0].id] if lab == 'T']) or True for n in lookups) and
-            all(g.every_path_passes(g.entry.id, n.id, {guards[0].id}) for n in lookups) and bool(lookups), f.node, f, 'producer < 0 guarded',
-            'the producer pseudo id -1 must be handled before the op-id map lookup')
-  if guards:
-    for n in lookups:
-      ok = n.id not in g.reachable([d for d, lab in g.succ[guards[0].id] if lab == 'T'], blocked=set())
-      ctx.check(R, ok, n.ast, f, n.ast, 'op-id map indexed with a producer that may be -1')
   # the map shift start is derived from the insert position, not from the consumer list
   upd = [c for c in common.calls_in(f.node) if common.call_name(c).endswith('_update_op_id_map')]
   for c in upd:
@@ -400,26 +389,20 @@ def r8_op_id_maps(ctx):
       c = [c for c in g.nodes[n].calls() if common.call_name(c).endswith(name)][0]
       ctx.check(R, tinfo is not None and any(tinfo in ast.unparse(a) for a in c.args), c, f, c, f'{name} must be fed from the TransformationInfo returned by the transformation')
       ctx.check(R, any('subgraph_id' in ast.unparse(a) for a in c.args), c, f, c, f'{name} must be told the subgraph of the instruction')
-  dispatch = [c for c in reg[0].calls() if isinstance(c.func, ast.Subscript)][0]
-  ctx.check(R, ast.unparse(dispatch.func.slice) == 'instruction.transformation', dispatch, f, dispatch.func, 'dispatch key must be the instruction\'s own transformation')
-  ti = [c for c in reg[0].calls() if common.call_name(c).endswith('TransformationInput')]
-  if ctx.check(R, len(ti) == 1, reg[0].ast, f, 'TransformationInput', 'the transformation must receive a TransformationInput'):
-    args = [defuse.norm(a) for a in ti[0].args]
-    ci = ctx.repo.cls('transformations.transformation_utils:TransformationInput')
-    names = [fl.name for fl in ci.fields]
-    bound = dict(zip(names, args))
-    want = {'tensor_id': 'instruction.tensor_id', 'op_codes': 'tflite_model.operatorCodes', 'buffers': 'tflite_model.buffers',
-            'subgraph': 'tflite_model.subgraphs[transformation_inst.subgraph_id]', 'producer': 'producer', 'consumers': 'consumers', 'quant_params': 'instruction.parameters'}
-    for k, v in want.items():
-      ctx.check(R, bound.get(k) == v, ti[0], f, f'TransformationInput.{k} = {bound.get(k)}', f'TransformationInput.{k} must be {v}')
+  # (dispatch key and the fields of the TransformationInput: decision table C01.R12)
   c = ctx.repo.func(f'{PERF}._create_op_id_map')
   ctx.instance(R)
-  src = defuse.norm(c.node)
-  loops = [n for n in common.walk_no_nested(c.node) if isinstance(n, ast.For)]
-  ok = len(loops) == 1 and ast.unparse(loops[0].iter).endswith('.subgraphs')
-  body = defuse.norm(ast.Module(body=loops[0].body, type_ignores=[])) if ok else ''
-  ctx.check(R, ok and 'self._original_op_id_map.append(list(range(len(subgraph.operators))))' in body and 'self._added_op_id_map.append([])' in body, c.node, c, 'identity map per subgraph',
-            'every subgraph needs its own identity map of len(operators) and its own empty added-op list')
+  from sa.consteval import Obj  # pylint: disable=g-import-not-at-top
+  it = tables.interp(ctx)
+  for sizes in ([2], [2, 0, 3], []):
+    selfo = Obj(PERF, {'_original_op_id_map': [], '_added_op_id_map': []})
+    model = Obj('x:ModelT', {'subgraphs': [Obj('x:SubGraphT', {'operators': [f'op{k}' for k in range(s)]}) for s in sizes]})
+    outs = it.outcomes(c, [selfo, model], copy_args=False)
+    om, am = selfo.fields['_original_op_id_map'], selfo.fields['_added_op_id_map']
+    ok = len(outs) == 1 and outs[0].kind == 'return' and om == [list(range(s)) for s in sizes] and am == [[] for _ in sizes] \
+        and len({id(x) for x in am}) == len(am) and len({id(x) for x in om}) == len(om)
+    ctx.check(R, ok, c.node, c, f'subgraphs with {sizes} operators -> original={om!r} added={am!r}',
+              'every subgraph needs its own identity map of len(operators) and its own (unshared) empty added-op list')
   t = ctx.repo.func(f'{PERF}.transform_graph')
   ctx.instance(R)
   gt = cfgmod.build(t.node)
@@ -453,6 +436,7 @@ def run(ctx):
   r7_no_truthiness_on_ids(ctx)
   r8_op_id_maps(ctx)
   r10_grouping_table(ctx)
+  shared.rule_performer_translation(ctx, 'C01.R12')
   # the buffer-sharing guard protects well-formedness too (a constant annotated
   # with two different parameter sets is rejected by the interpreter)
   from sa.rules import c15  # pylint: disable=g-import-not-at-top
